@@ -74,10 +74,24 @@ package scorch
 //@   trusted walks bolt buckets with cursors and closures
 //@   requires s != nil
 //@   ensures implies(result1 == nil, forall(k, 0, len(result0), result0[k] != nil))
+// the check points, newest first: every check point carries the time stamp recorded for its epoch,
+// and no check point is newer than one before it (the oldest are the ones pruned first)
+// (time stamps are compared through an abstract strict order: timeLess(a, b) - a is before b)
+//@ uf timeLess(a time.Time, b time.Time) bool
+//@ axiom timeLessAsym: all(a, time.Time, all(b, time.Time, implies(timeLess(a, b), !timeLess(b, a))))
+//@ assume func time.Time.After(t, u)
+//@   pure
+//@   ensures result == timeLess(u, t)
+//@ assume func time.Time.Before(t, u)
+//@   pure
+//@   ensures result == timeLess(t, u)
 //@ func newCheckPoints
 //@   props C13
 //@   mode int
-//@   trusted sorting by time stamp (sort.SliceStable with a closure) is not under contract
+//@   ensures forall(k, 0, len(result), result[k] != nil && result[k].timeStamp == snapshots[result[k].epoch])
+//@   ensures forall(p, 0, len(result), forall(q, p+1, len(result), !result[q].timeStamp.After(result[p].timeStamp)))
+//@   loop 0: invariant len(keys) <= iter && fresh(keys)
+//@   loop 1: invariant len(rv) == iter && fresh(rv) && forall(k, 0, iter, rv[k] != nil && fresh(rv[k]) && rv[k].epoch == keys[k] && rv[k].timeStamp == snapshots[keys[k]])
 
 // Removing old snapshots from the metadata store: only epochs that were eligible and are not
 // protected are deleted; the protected ones stay eligible for a later round; the write
